@@ -202,6 +202,17 @@ impl<E: Pairing> VerifierKey<E> {
         proof: &EvaluationProof<E>,
         open_chal: &E::ScalarField,
     ) -> VerificationResult {
+        // The key supports at most `max_eval_points` evaluation points. The multi-scalar
+        // multiplications below silently truncate longer inputs, so more points than that
+        // (and evaluation tables that do not match the commitments and points) are refused.
+        if eval_points.len() >= self.powers_of_g2.len()
+            || eval_points.len() > self.powers_of_g.len()
+            || commitments.len() != evaluations.len()
+            || evaluations.iter().any(|e| e.len() != eval_points.len())
+        {
+            return Err(VerificationError);
+        }
+
         // Computing the vanishing polynomial over eval_points
         let zeros = vanishing_polynomial(eval_points);
         let zeros_repr = zeros.iter().map(|x| x.into_bigint()).collect::<Vec<_>>();
